@@ -70,7 +70,8 @@ def _pairs(X, tier, alpha, core, extra=()):
         k = gen(X, "k", alpha, 2)
         return shape, [(k, gen(X, "v", alpha, second_max(tier, 2)))]
     n = X.choose("npairs", 3 if tier == "quick" else 4)
-    return shape, [(gen(X, "k", core, 1), gen(X, "v", core, 1)) for _ in range(n)]
+    cr = core if n < 3 else core[:4]  # thorough: three pairs over the first four core symbols (two pairs: the whole core, as in quick)
+    return shape, [(gen(X, "k", cr, 1), gen(X, "v", cr, 1)) for _ in range(n)]
 
 
 def _tuples(view):
@@ -145,11 +146,12 @@ def _cookie_pairs(X, tier, vmax=3):
     shape = X.choose("shape", ["one", "many"])
     alpha = CA if tier == "quick" else CA + ["\ud800", "\r", "A"]
     pairs, tiers = [], []
-    n = 1 if shape == "one" else X.choose("npairs", 3 if tier == "quick" else 4)
+    # (Set-Cookie, vmax == 2, is crossed with the attribute lists: its pair space stays at <= 2 pairs / values of <= 2 units)
+    n = 1 if shape == "one" else X.choose("npairs", 3 if tier == "quick" or vmax < 3 else 4)
     for _ in range(n):
         k = gen(X, "k", alpha if shape == "one" else CC, 2 if shape == "one" else 1)
         X.assume(R.cookie_name_ok(k))
-        v = gen(X, "v", alpha if shape == "one" else CC, (vmax if tier == "quick" else 3) if shape == "one" else (1 if tier == "quick" else 2))
+        v = gen(X, "v", alpha if shape == "one" else CC, vmax if shape == "one" else (1 if tier == "quick" else 2))
         t = R.cookie_value_tier(v)
         X.assume(t is not None)
         pairs.append((k, v))
@@ -223,7 +225,7 @@ def h_multipart(X, tier):
     for _ in range(n):
         k = gen(X, "k", MA if shape == "one" else MC, 2 if shape == "one" else 1, empty=b"")
         X.assume(R.multipart_name_ok(k))
-        v = gen(X, "v", MA if shape == "one" else MC, second_max(tier, 2) if shape == "one" else (1 if tier == "quick" else 2), empty=b"")
+        v = gen(X, "v", MA if shape == "one" else MC, second_max(tier, 2) if shape == "one" else (1 if tier == "quick" or n == 3 else 2), empty=b"")
         if preset:
             X.assume(R.multipart_value_ok(v, b"B"))
         pairs.append((k, v))
@@ -400,15 +402,15 @@ def _noparam(p):
 
 def obligations(tier):
     b = "keys/values of 0-2 units%s over the per-format alphabet for one pair; 0-1 unit over the core alphabet for %s pairs" % (
-        (" (together <= 3 units)", "<= 2") if tier == "quick" else ("", "<= 3"))
+        (" (together <= 3 units)", "<= 2") if tier == "quick" else ("", "<= 2 pairs, or 3 pairs over the first four core symbols: <= 3"))
     mk = lambda h: (lambda X: h(X, tier))  # noqa: E731
     return [
         Symx("query", mk(h_query), bounds=f"Request.query: {b}; alphabet {QA!r}, core {QC!r}; base targets with params/old query/fragment", encoded=ENCODED, must_reach=["assigned"], parallel_depth=3),
         Symx("urlencoded-form", mk(h_form), bounds=f"Request.urlencoded_form: {b}; alphabet {QA!r}; previous body absent / 'x=1&y=2' / 'x&y'", encoded=ENCODED, must_reach=["assigned"], parallel_depth=3),
         Symx("cookies", mk(h_cookies), bounds=f"Request.cookies: one pair (name 0-2, value 0-3 units over {CA!r}) or <= {2 if tier == 'quick' else 3} pairs over {CC!r}; RFC 6265 tier and quoted-string tier keyed separately",
              encoded=ENCODED, must_reach=["assigned", "rfc6265", "quoted-string"], parallel_depth=3),
-        Symx("set-cookie", mk(h_setcookies), bounds=f"Response.cookies: same pair space x {len(ATTRS)} attribute lists", encoded=ENCODED, must_reach=["assigned", "rfc6265", "quoted-string"], parallel_depth=3),
-        Symx("multipart-form", mk(h_multipart), bounds=f"Request.multipart_form: one pair (0-2 units over {MA!r}) or <= {2 if tier == 'quick' else 3} pairs over {MC!r}; boundary preset 'B' or generated",
+        Symx("set-cookie", mk(h_setcookies), bounds=f"Response.cookies: one pair (name 0-2, value 0-2 units) or <= 2 pairs (values of <= {1 if tier == 'quick' else 2} units) x {len(ATTRS)} attribute lists", encoded=ENCODED, must_reach=["assigned", "rfc6265", "quoted-string"], parallel_depth=3),
+        Symx("multipart-form", mk(h_multipart), bounds=f"Request.multipart_form: one pair (0-2 units over {MA!r}) or <= {2 if tier == 'quick' else 3} pairs over {MC!r} (values of <= {'1 unit' if tier == 'quick' else '2 units for two pairs, 1 unit for three'}); boundary preset 'B' or generated",
              encoded=ENCODED, must_reach=["assigned", "linebreak-in-value"], parallel_depth=3),
         Symx("path-components", mk(h_path), bounds=f"Request.path_components: one component (0-2 units over {PA!r}) on 3 base targets, or 2 components (0-2 units)" + ("" if tier == "quick" else ", or 3 components (0-1 unit, core)"),
              encoded=ENCODED, must_reach=["assigned", "empty-component"], parallel_depth=3),
